@@ -87,6 +87,16 @@ var kindTable = []kindInfo{
 
 const otherBarGroup = "other.example.com"
 
+// EntryInvalid builds a universe entry whose manifests fail the validator's field checks for
+// another reason than the namespace scope: an apiVersion the mapper does not know (of a known
+// or of an unknown kind), an empty name, an empty kind. Such an object never reaches the
+// server; in the model it is `l_finv` like the others.
+func EntryInvalid(apiVersion, kind, ns, name string) UEntry {
+	gv, _ := schema.ParseGroupVersion(apiVersion)
+	return UEntry{Meta: object.ObjMetadata{Namespace: ns, Name: name, GroupKind: schema.GroupKind{Group: gv.Group, Kind: kind}},
+		APIVersion: apiVersion, Namespaced: ns != "", Kind: KPlain, NsObj: -1, Crd: -1, FInv: true}
+}
+
 // EntryOtherBar builds a universe entry of kind Bar in the second API group: together with
 // Entry("Bar", ns, name) two identifiers that differ in the group only.
 func EntryOtherBar(ns, name string) UEntry {
